@@ -83,7 +83,7 @@ class NmpfitStrategy(HoloPyObject):
         self.ftol = ftol
         self.xtol = xtol
         self.gtol = gtol
-        self.damp = 0
+        self.damp = damp
         self.maxiter = maxiter
         self.quiet = quiet
         self.npixels = npixels
